@@ -147,7 +147,7 @@ def gen_instance(rng, big=False):
 def root_is_trivial(inst):
     """the LP relaxation (exact, replica simplex) is infeasible/unbounded or already integral in the integer variables"""
     st, x, _, _ = PORT.solve_lp([F(v) for v in inst["c"]], [[F(v) for v in r] for r in inst["A"]], [F(v) for v in inst["b"]],
-                                inst["minimize"], F(1, 10**6), 10000)
+                                inst["minimize"], F(1, 10**10), 10000)
     return st != "OPTIMAL" or all(x[j].denominator == 1 for j in inst["ints"])
 
 
@@ -161,7 +161,7 @@ def gen_nontrivial(rng, big=False):
 
 def _root_lp(inst):
     return PORT.solve_lp([F(v) for v in inst["c"]], [[F(v) for v in r] for r in inst["A"]], [F(v) for v in inst["b"]],
-                         inst["minimize"], F(1, 10**6), 10000)
+                         inst["minimize"], F(1, 10**10), 10000)
 
 
 def gen_bindet(rng):
@@ -339,8 +339,11 @@ def small_enough(inst):
 def run_impl(inst, var, timeout=5, shared=None):
     """-> dict(status, solution, objective, nodes, solutions, lns=record | None) or dict(fail=...).
     `shared`: (c, A, b, ints, ws) objects to pass instead of fresh copies (aliasing / call-sequence checks)"""
+    import warnings
+
     import solvor.milp as M
 
+    warnings.simplefilter("ignore")          # warn_large_coefficients fires on the magnitude family by design
     rec = {}
     orig = M._lns_improve
 
@@ -542,7 +545,8 @@ def check_point(inst, x, what):
             return f"{what}: x[{j}] = {x[j]} is not integral"
     for i, row in enumerate(A):
         lhs = sum(a * v for a, v in zip(row, x))
-        if lhs > b[i] + TOL:
+        # TOL plus the round-off of forming the row in doubles (1e-12 relative to the terms: negligible for small data)
+        if lhs > b[i] + TOL + 1e-12 * (abs(b[i]) + sum(abs(a * v) for a, v in zip(row, x))):
             return f"{what}: row {i} violated ({lhs} > {b[i]}) by {x}"
     return None
 
@@ -590,17 +594,6 @@ def judge(inst, var, out, tr):
             return "status MAX_ITER with the default LP iteration / node limits on a tiny problem"
     if tr[0] == "UNB" and st not in ("UNBOUNDED", "MAX_ITER"):
         return f"the relaxation is unbounded but the status is {st}"
-    return None
-
-
-def known_class(inst, var, bad):
-    """id of the reported finding whose input class and failure mode this rejection falls in, else None"""
-    eps = 1e-6 if var.get("eps") is None else var["eps"]
-    if max((abs(v) for r in inst["A"] for v in r), default=0) * eps >= 0.1:
-        return "C04-rowscale-lp-eps"            # F1: a coefficient a with |a| * eps >= 0.1, eps forwarded to solve_lp
-    nz = [abs(v) for v in inst["c"] if v]
-    if nz and max(nz) / min(nz) >= 2**40 and "!= c.x" in bad:
-        return "C04-objective-huge-cost"        # F3: reported objective != c.x when costs differ by a factor >= 2^40
     return None
 
 
@@ -877,6 +870,11 @@ def run(ctx: Ctx):
         "set iteration order of int_set: integer indices are passed sorted and duplicate-free (small non-negative ints iterate in "
         "increasing order in CPython); `evaluations` (LP iteration total) is not compared; node count compared for heuristics=False",
         "oracle: the enumeration box of the integer variables is read off explicit single-variable rows (else an exact LP bound)",
+        "option eps = 0.0 is not swept (a zero tolerance in float arithmetic is outside sensible input; observation in "
+        "corpus/C04/observations/eps_zero.json: solve_milp(..., eps=0.0) can answer INFEASIBLE for a feasible problem); eps is swept over "
+        "1e-9, 1e-7, 1e-6",
+        "LP kernel tolerance: _solve_node calls solve_lp with eps = min(eps, 1e-10) (commit cccee4d); the model instance is "
+        "simplex_kernel (lp_eps eps)",
         "eps = 0: histogram 'eps0_same_result' counts the explored runs on which the model with eps = 0 (the instance for which the C03 "
         "kernel statements are formulated) returns the same Result as with eps = 1e-6; differing runs (warm starts inside the tolerance) "
         "are outside the exact corollary",
@@ -913,7 +911,7 @@ def run(ctx: Ctx):
             items.append((inst, [_norm_var({"heuristics": False}), _norm_var({"form": ctx.rng.choice(FAM.FORMS)}),
                                  _norm_var({"lns_iterations": 3, "solution_limit": ctx.rng.choice([1, 3])})]))
     for inst in FAM.big_box_templates(ctx.rng):
-        items.append((inst, [_norm_var({"heuristics": False}), _norm_var({}), _norm_var({"solution_limit": 3, "form": "float"})]))
+        items.append((inst, [_norm_var({"heuristics": False}), _norm_var({}), _norm_var({"solution_limit": 3, "form": "float", "max_nodes": 200})]))
     for inst in FAM.size_instances(ctx.rng, big):
         items.append((inst, [_norm_var({"heuristics": False}), _norm_var({}), _norm_var({"lns_iterations": 2})]))
     for _ in range(ctx.budget(5, 30)):
@@ -951,14 +949,6 @@ def run(ctx: Ctx):
             ctx.count("opt_solution_limit", var["solution_limit"])
             ctx.count("opt_warm", "none" if var["warm_start"] is None else "given")
             ctx.count("opt_limits", ("iter" if var["max_iter"] is not None else "") + ("nodes" if var["max_nodes"] is not None else "") or "default")
-            kid = known_class(inst, var, bad) if bad else None
-            if kid:
-                # classes of reported findings (F1 row magnitude x forwarded eps, F3 objective read off a tableau row with a 2^40 cost):
-                # only an OPEN entry of known_findings.json with that id turns a hit into KNOWN-FINDING; otherwise it is a VIOLATION
-                ctx.count("known_class_hits", kid)
-                if any(f.get("id") == kid for f in ctx.open_findings()):
-                    ctx.known_hit(kid, f"{bad}; c={inst['c']} A={inst['A']} b={inst['b']} ints={inst['ints']} minimize={inst['minimize']}")
-                    continue
             if bad:
                 ctx.count("oracle_rejects", inst.get("family", "?").split(":")[0] + ": " + " ".join(bad.split()[:4]))
                 if not reported and len(ctx.violations) < 5 and (not small_enough(inst) or inst.get("known") is not None):
